@@ -93,7 +93,7 @@ def run_structural(chk, F):
                        "%s (%s stream) hands an unconverted or wrongly converted word to the backend: %s" % (b["path"], e, sorted(set(wbad))),
                        sample={"fn": b["path"], "write_word_sites": len(sites)})
     chk.rule("W2.sites", floor=1, doc="number of distinct write_word call sites seen")
-    chk.expect("W2.sites", "count", n_ww >= 18, "only %d write_word call sites found in buf_bit_writer.rs (expected >= 18)" % n_ww, sample={"sites": n_ww})
+    chk.expect("W2.sites", "count", n_ww >= 8, "only %d write_word call sites found in buf_bit_writer.rs (expected >= 8: the rule would be close to vacuous)" % n_ww, sample={"sites": n_ww})
     # W3
     d = F.one(name="drop", trait_is="std::ops::Drop", impl_self=WRITER)
     okd = True
